@@ -24,6 +24,9 @@ func init() {
 			"Not covered: actual goroutine schedules (io.Pipe and sync.WaitGroup semantics are trusted).",
 		Run: runC12,
 	})
+	mutant(&Mutant{Name: "c12-output-written-over-the-input-copy", Property: "C12", File: "minify.go",
+		Old: "\tcopy(in, v)\n\tout := buffer.NewWriter(make([]byte, 0, len(v)))", New: "\tcopy(in, v)\n\tout := buffer.NewWriter(in[:0])",
+		Rule: "R12.8", Construct: "output buffer and input copy are different memory"})
 	mutant(&Mutant{Name: "c12-minifier-sniffed-from-first-chunk", Property: "C12", File: "minify.go",
 		Old: "\t\tif mediatype := w.ResponseWriter.Header().Get(\"Content-Type\"); mediatype != \"\" {\n\t\t\tw.mediatype = mediatype\n\t\t}\n", New: "\t\tif mediatype := w.ResponseWriter.Header().Get(\"Content-Type\"); mediatype != \"\" {\n\t\t\tw.mediatype = mediatype\n\t\t} else if w.mediatype == \"\" {\n\t\t\tw.mediatype = http.DetectContentType(b)\n\t\t}\n",
 		Rule: "R12.7", Construct: "independent of the chunk"})
@@ -71,6 +74,7 @@ func runC12(c *Ctx) {
 	c.r125(pk)
 	c.r126(pk)
 	c.r127(pk)
+	c.r128("R12.8")
 }
 
 // R12.1
